@@ -39,8 +39,8 @@ def plan(tier, seed):
         sh += [{'kind': 'enum', 'L': 2, 'k': i, 'n': 2, 'name': 'enum%d' % i} for i in range(2)]
         sh += [{'kind': 'special', 'name': 'special'}]
         return sh
-    sh = [{'kind': 'default', 'n': 4000, 'depth': 4 + (i % 3), 'name': 'def%d' % i} for i in range(10)]
-    sh += [{'kind': 'custom', 'n': 4000, 'depth': 4 + (i % 3), 'name': 'cus%d' % i, 'ci': i} for i in range(16)]
+    sh = [{'kind': 'default', 'n': 15000, 'depth': 4 + (i % 3), 'name': 'def%d' % i} for i in range(16)]
+    sh += [{'kind': 'custom', 'n': 12000, 'depth': 4 + (i % 3), 'name': 'cus%d' % i, 'ci': i} for i in range(32)]
     sh += [{'kind': 'enum', 'L': 3, 'k': i, 'n': 16, 'name': 'enum%d' % i} for i in range(16)]
     sh += [{'kind': 'special', 'name': 'special'}]
     return sh
